@@ -6,7 +6,12 @@ package plugin
 // Addrs / Routes / TimeNow fields and the produced options are recorded.
 
 import (
+	"context"
 	"errors"
+	"fmt"
+	"io"
+	"os"
+	"syscall"
 	"math"
 	"net"
 	"net/netip"
@@ -149,12 +154,15 @@ const (
 func vfC13(in map[string]any) map[string]any {
 	fail := vfBool(in, "fail", false)
 	onlink, auto := vfBool(in, "onlink", true), vfBool(in, "auto", true)
+	// (the parser gives every prefix stanza the daemon's start time; the clock reads an hour later)
+	epoch := time.Date(2026, 1, 1, 0, 0, 0, 0, time.UTC)
 	p := &Prefix{Auto: true, Prefix: netip.MustParsePrefix("::/64"), OnLink: onlink, Autonomous: auto,
-		ValidLifetime: vfValid, PreferredLifetime: vfPref}
+		ValidLifetime: vfValid, PreferredLifetime: vfPref, Epoch: epoch,
+		TimeNow: func() time.Time { return epoch.Add(time.Hour) }}
 	ips := vfIPs(vfList(in, "addrs"))
 	p.Addrs = func() ([]system.IP, error) {
 		if fail {
-			return nil, errors.New("vf: listing failed")
+			return nil, vfListErr(in)
 		}
 		return append([]system.IP(nil), ips...), nil
 	}
@@ -179,7 +187,7 @@ func vfC13(in map[string]any) map[string]any {
 	}
 	// A second Apply on the same plugin must give the same options (C01 idempotence).
 	ra2 := &ndp.RouterAdvertisement{}
-	if err := p.Apply(ra2); err != nil || len(ra2.Options) != len(ra.Options) {
+	if err := p.Apply(ra2); err != nil || !reflect.DeepEqual(ra2.Options, ra.Options) {
 		uniform = false
 	}
 	return map[string]any{"err": false, "nets": nets, "uniform": uniform}
@@ -198,7 +206,7 @@ func vfC14(in map[string]any) map[string]any {
 	ips := vfIPs(vfList(in, "addrs"))
 	r.Addrs = func() ([]system.IP, error) {
 		if fail {
-			return nil, errors.New("vf: listing failed")
+			return nil, vfListErr(in)
 		}
 		return append([]system.IP(nil), ips...), nil
 	}
@@ -242,7 +250,7 @@ func vfC15(in map[string]any) map[string]any {
 	r := &Route{Auto: true, Prefix: netip.MustParsePrefix("::/0"), Preference: ndp.High, Lifetime: vfValid}
 	r.Routes = func() ([]system.Route, error) {
 		if fail {
-			return nil, errors.New("vf: dump failed")
+			return nil, vfListErr(in)
 		}
 		return append([]system.Route(nil), routes...), nil
 	}
@@ -361,6 +369,16 @@ func vfC16(in map[string]any) map[string]any {
 	r := &Route{Prefix: netip.MustParsePrefix("2001:db8:1::/48"), Preference: ndp.Medium,
 		Lifetime: time.Duration(vfInt(in, "rl", 0)) * unit, Deprecated: dep, Epoch: at(vfInt(in, "epoch", 0)),
 		TimeNow: clock}
+	if vfBool(in, "wild", false) {
+		// the ::/64 wildcard over one interface address, which the kernel may flag deprecated ("kdep"): whether the
+		// stanza counts down is the configuration's choice, not the kernel's
+		p.Auto, p.Prefix = true, netip.MustParsePrefix("::/64")
+		kdep := vfBool(in, "kdep", false)
+		p.Addrs = func() ([]system.IP, error) {
+			return []system.IP{{Address: netip.MustParsePrefix("2001:db8::1/64"), Deprecated: kdep},
+				{Address: netip.MustParsePrefix("fe80::1/64")}}, nil
+		}
+	}
 	var lts, ncalls []any
 	for _, x := range vfList(in, "reads") {
 		tt := 0
@@ -394,4 +412,29 @@ func vfC16(in map[string]any) map[string]any {
 		lts = append(lts, row)
 	}
 	return map[string]any{"lifetimes": lts, "calls": ncalls}
+}
+
+// vfListErr: the error a failing address listing / route dump returns; whatever its class, RA generation has to fail
+func vfListErr(in map[string]any) error {
+	switch vfStr(in, "failkind", "other") {
+	case "notexist":
+		return fmt.Errorf("vf: listing: %w", os.ErrNotExist)
+	case "enoent":
+		return os.NewSyscallError("netlink receive", syscall.ENOENT)
+	case "patherr":
+		return &os.PathError{Op: "open", Path: "/proc/sys/net/ipv6/conf/vf0", Err: syscall.ENOENT}
+	case "enodev":
+		return os.NewSyscallError("netlink receive", syscall.ENODEV)
+	case "eintr":
+		return syscall.EINTR
+	case "perm":
+		return fmt.Errorf("vf: listing: %w", os.ErrPermission)
+	case "canceled":
+		return fmt.Errorf("vf: listing: %w", context.Canceled)
+	case "deadline":
+		return os.ErrDeadlineExceeded
+	case "eof":
+		return io.EOF
+	}
+	return errors.New("vf: listing failed")
 }
